@@ -32,7 +32,14 @@ type c09Entry struct {
 }
 
 // extraOverlay holds generated harness files: repo-relative package dir -> file name -> contents.
-var extraOverlay = map[string]map[string][]byte{}
+// The C09 table file is always present (empty unless the C09 pre-step has generated it) so that the dataflow harness
+// package compiles for every property.
+var extraOverlay = map[string]map[string][]byte{
+	"analysis/dataflow": {"gen_c09_table.go": []byte(c09TableHeader + "const c09Unresolved = 0\n\nvar c09Table = []c09Entry{}\n")},
+}
+
+const c09TableHeader = "package dataflow\n\n// Generated on every run by `symgo check C09` from /repo/analysis/summaries (table) and GOROOT (signatures).\n\n" +
+	"type c09Entry struct {\n\tKey    string\n\tNP, NR int\n\tArgs   [][]int\n\tRets   [][]int\n}\n\n"
 
 func dumpSummaryTable() (map[string]map[string]tableSummary, error) {
 	tmp, err := os.MkdirTemp("", "symgo-c09-")
@@ -177,8 +184,7 @@ func prepareC09() (string, error) {
 		entries = append(entries, c09Entry{Pkg: pkg, Key: r.key, NP: np, NR: sig.Results().Len(), Args: r.s.Args, Rets: r.s.Rets})
 	}
 	var sb strings.Builder
-	sb.WriteString("package dataflow\n\n// Generated on every run by `symgo check C09` from /repo/analysis/summaries (table) and GOROOT (signatures).\n\n")
-	sb.WriteString("type c09Entry struct {\n\tKey    string\n\tNP, NR int\n\tArgs   [][]int\n\tRets   [][]int\n}\n\n")
+	sb.WriteString(c09TableHeader)
 	fmt.Fprintf(&sb, "const c09Unresolved = %d\n\n", unresolved)
 	sb.WriteString("var c09Table = []c09Entry{\n")
 	lit := func(m [][]int) string {
